@@ -1454,3 +1454,27 @@ def param_index(S, node, frame, through_mut=False):
     if b is not None and b.kind == "param" and b.frame is S.root:
         return b.index
     return None
+
+
+def nested_variants(pc, pred, enum_name):
+    """variants `<enum_name>::X` that the positive `is` literals of a path condition restrict a scrutinee component to, also
+    when the variant is nested in the alternative (`Option::Some(SchemeItem::Field)`, `Result::Ok(LhsValue::Map)`);
+    None when unrestricted"""
+    best = None
+    rx = re.compile(re.escape(enum_name) + r"::(\w+)")
+    for a, pol in is_literals(pc):
+        if not pol:
+            continue
+        for i, v in enumerate(a.scruts):
+            if not pred(v):
+                continue
+            vs = set()
+            for alt in a.alts:
+                m = rx.search(alt[i])
+                if not m:
+                    vs = None
+                    break
+                vs.add(m.group(1))
+            if vs is not None:
+                best = vs if best is None else (best & vs)
+    return best
